@@ -549,6 +549,18 @@ func newWorldA(p *Plan, out *Outcome, preStart func(w *worldA)) *worldA {
 		if i != w.coll {
 			return 0
 		}
+		// a memory check while a worker is stalled would leave that worker, when the
+		// stall ends, with both the ejection request and its backlog ready - and
+		// which one Go's select takes cannot be seeded: the reading waits for the
+		// first memory check after the stall
+		for k := 0; k < w.nWorkers; k++ {
+			if w.tr.Armed(fmt.Sprintf("collect_worker/%d", k)) {
+				if w.heapNext > 0 {
+					w.out.Probe("memory_reading_postponed_worker_stalled")
+				}
+				return 0
+			}
+		}
 		v := w.heapNext
 		w.heapNext = 0
 		return v
@@ -1157,7 +1169,13 @@ func (w *worldA) hooks() {
 			}
 			w.tickLog = append(w.tickLog, tr)
 		}
-		if strings.Contains(tk.Key, "monitor") && w.heapNext > 0 {
+		stalledNow := false
+		for k := 0; k < w.nWorkers; k++ {
+			if w.tr.Armed(fmt.Sprintf("collect_worker/%d", k)) {
+				stalledNow = true
+			}
+		}
+		if strings.Contains(tk.Key, "monitor") && w.heapNext > 0 && !stalledNow {
 			ma := uint64(w.cfg.GetCollectionConfig().GetMaxAlloc())
 			if ma > 0 && w.heapNext >= ma {
 				w.pendingEj = &ejection{at: time.Now(), step: w.out.Steps, heap: w.heapNext, maxAlloc: ma, before: w.snapshotBuffers(), stalled: map[int]bool{}}
